@@ -686,7 +686,7 @@ func c08Run(e *env, c *c08Case, key string, sample bool) {
 	d0 := digest()
 
 	// model: the registries as compiled, before anything ran
-	modelOK := c.Oblig != "verifBang"
+	modelOK := true // the custom configuration is rendered by the extended walker (Model/InterpExt.v, op render_x)
 	ids := newIDTable()
 	if modelOK {
 		for k := 0; k < 2; k++ {
@@ -824,7 +824,20 @@ func c08Model(e *env, c *c08Case, key string, st c08Step, w *c08World, ref c08Ou
 	if st.Alt {
 		k = 1
 	}
-	r := e.m.Call("render", fmt.Sprintf("%s-%d", key, k), sx(st.Template), "#4000", "none", bl, obl, ijs, ";", valueSexp(d, ids))
+	var r []string
+	if c.Custom || c.Oblig == "verifBang" {
+		// installed functions / directive: Model/InterpExt.v render_x with ux_harness (the mirror of c08Install)
+		flag := func(b bool) string {
+			if b {
+				return "#1"
+			}
+			return "#0"
+		}
+		e.res.Histogram["model:render_x"]++
+		r = e.m.Call("render_x", fmt.Sprintf("%s-%d", key, k), sx(st.Template), "#4000", "none", bl, obl, flag(c.Oblig == "verifBang"), flag(c.Custom), ijs, ";", valueSexp(d, ids))
+	} else {
+		r = e.m.Call("render", fmt.Sprintf("%s-%d", key, k), sx(st.Template), "#4000", "none", bl, obl, ijs, ";", valueSexp(d, ids))
+	}
 	if len(r) < 5 {
 		e.res.Fail(hx.Violation{Kind: "mismatch", What: "model render failed", Case: c, Observed: fmt.Sprint(r)}, "")
 		return
